@@ -4,12 +4,13 @@
 // simulations on a separate "query connection" (serialised among themselves by
 // their own mutex, never with the consensus calls — the topology
 // proxy.NewLocalClientCreator builds). Monitors:
-//   (1) app hashes and tx results equal those of a quiet reference run;
-//   (2) every query answer is consistent with ONE committed height: a probe realm
-//       writes (h, 7h+3, ...) in one tx per block and two accounts keep a constant
-//       sum of a realm coin, all read back by a single qeval; the observed height S
-//       satisfies  committed-before-request ≤ S ≤ commit-started-before-response;
-//   (3) (engine built with -race) the race detector stays silent.
+//
+//	(1) app hashes and tx results equal those of a quiet reference run;
+//	(2) every query answer is consistent with ONE committed height: a probe realm
+//	    writes (h, 7h+3, ...) in one tx per block and two accounts keep a constant
+//	    sum of a realm coin, all read back by a single qeval; the observed height S
+//	    satisfies  committed-before-request ≤ S ≤ commit-started-before-response;
+//	(3) (engine built with -race) the race detector stays silent.
 package c28
 
 import (
@@ -27,6 +28,7 @@ import (
 	_ "github.com/gnolang/gno/tm2/pkg/db/pebbledb"
 	"github.com/gnolang/gno/tm2/pkg/sdk"
 	"github.com/gnolang/gno/tm2/pkg/std"
+	storetypes "github.com/gnolang/gno/tm2/pkg/store/types"
 
 	"verifharness/internal/chainsim"
 	"verifharness/internal/hist"
@@ -97,10 +99,10 @@ func Heavy(n int) string {
 const tokTotal = 100000
 
 type obs struct {
-	kind     string
-	lo, hi   int64 // committed before request, commit-started before response
-	overlap  bool
-	resp     abci.ResponseQuery
+	kind    string
+	lo, hi  int64 // committed before request, commit-started before response
+	overlap bool
+	resp    abci.ResponseQuery
 }
 
 func buildBlocks(c *vf.Ctx, rng *rand.Rand, n int) [][]hist.TxSpec {
@@ -128,13 +130,13 @@ func buildBlocks(c *vf.Ctx, rng *rand.Rand, n int) [][]hist.TxSpec {
 }
 
 type runner struct {
-	ch           *chainsim.Chain
-	committed    atomic.Int64
-	commitStart  atomic.Int64
-	inConsensus  atomic.Bool
+	ch          *chainsim.Chain
+	committed   atomic.Int64
+	commitStart atomic.Int64
+	inConsensus atomic.Bool
 }
 
-func newRunner(c *vf.Ctx, backend, tag string) *runner {
+func newRunner(c *vf.Ctx, backend, tag string, prune ...storetypes.PruneStrategy) *runner {
 	var db dbm.DB
 	if backend != "memdb" {
 		dir := filepath.Join(c.WorkDir, tag)
@@ -145,7 +147,11 @@ func newRunner(c *vf.Ctx, backend, tag string) *runner {
 			panic(err)
 		}
 	}
-	ch, err := chainsim.New(chainsim.Options{DB: db})
+	opts := chainsim.Options{DB: db}
+	if len(prune) > 0 {
+		opts.Prune = prune[0]
+	}
+	ch, err := chainsim.New(opts)
 	if err != nil {
 		panic(err)
 	}
@@ -315,6 +321,56 @@ func run(c *vf.Ctx) {
 				}
 				checkPair(c, backend, obs{kind: "pair", lo: lo, hi: hi, overlap: true, resp: resp}, w, "")
 			}
+			// ---- the same injected schedule on a node that prunes every old version, with a CheckTx (mempool
+			// admission: uncommitted sequence bump and fee debit in the check state) right after the commit:
+			// the answer is an error or committed state, never the pending check state
+			if backend == "memdb" {
+				pr := newRunner(c, backend, fmt.Sprintf("gap-prune-%d", bi), storetypes.PruneEverythingStrategy)
+				nx := 0
+				for nx < len(blocks) && nx < 3 {
+					pr.play(blocks[nx : nx+1])
+					nx++
+				}
+				carol := pr.ch.Acc("carol")
+				for nx < len(blocks) && nx < c.N(12, 40) {
+					fired := false
+					var seqCommitted uint64
+					hook := func() {
+						if fired {
+							return
+						}
+						fired = true
+						pr.play(blocks[nx : nx+1])
+						nx++
+						pr.ch.SyncAccount(carol)
+						seqCommitted = carol.Seq
+						tx := pr.ch.SignTx([]std.Msg{chainsim.MsgCall(carol, hist.StorePath, "Push", "pending")}, chainsim.Fee(60_000_000, 1_000_000), carol)
+						pr.ch.App.CheckTx(abci.RequestCheckTx{Tx: chainsim.TxBytes(tx)})
+					}
+					sdk.VerifQueryGap.Store(&hook)
+					var resp abci.ResponseQuery
+					pv := vf.Try(func() { resp = pr.ch.App.Query(abci.RequestQuery{Path: "auth/accounts/" + carol.Addr.String()}) })
+					sdk.VerifQueryGap.Store(nil)
+					c.Case(fmt.Sprintf("%s/gap-pruned/%d", backend, nx), true)
+					if !fired {
+						break
+					}
+					c.Count("gap_queries_on_pruning_node", 1)
+					w := map[string]any{"backend": backend, "kind": "account", "injected": "block committed (older version pruned) + CheckTx of a tx of the queried account between height choice and state pinning", "committed_sequence": seqCommitted, "data": clip(string(resp.Data))}
+					if pv != nil {
+						c.Violation("query-panics:account-gap-pruned", w, "account query panicked: %v", pv)
+						continue
+					}
+					if resp.Error != nil {
+						c.Count("gap_queries_on_pruning_node_refused", 1) // an error is not a mixed or uncommitted answer
+						continue
+					}
+					if got, ok := seqOf(resp.Data); ok && got > seqCommitted {
+						c.Violation("query-sees-uncommitted-state:check-state", w, "backend %s: the account query answered sequence %d while the committed sequence is %d: it read the mempool check state (a pending CheckTx), not a committed height", backend, got, seqCommitted)
+					}
+				}
+				pr.ch.Close()
+			}
 			// ---- explicit past heights (no concurrency at all): the answer must be the state of that height
 			for back := int64(1); back <= 3; back++ {
 				hq := gr.committed.Load() - back
@@ -431,4 +487,21 @@ func clip(s string) string {
 		return s[:200] + "…"
 	}
 	return s
+}
+
+// seqOf extracts "sequence" from an account query answer (JSON).
+func seqOf(data []byte) (uint64, bool) {
+	s := string(data)
+	i := strings.Index(s, "\"sequence\"")
+	if i < 0 {
+		return 0, false
+	}
+	s = s[i+len("\"sequence\""):]
+	s = strings.TrimLeft(s, ": \"")
+	j := 0
+	for j < len(s) && s[j] >= '0' && s[j] <= '9' {
+		j++
+	}
+	n, err := strconv.ParseUint(s[:j], 10, 64)
+	return n, err == nil
 }
